@@ -9,6 +9,7 @@ import (
 	"net"
 	"os"
 	"os/exec"
+	"os/signal"
 	"path/filepath"
 	"sort"
 	"strings"
@@ -33,9 +34,28 @@ func TestVerifC05Node(t *testing.T) {
 		fmt.Println("NODE-START-ERROR", err)
 		os.Exit(7)
 	}
-	_ = n
 	fmt.Println("NODE-UP")
-	select {}
+	// SIGUSR1: replace the state in place from a fresh snapshot while the API keeps
+	// serving (what raft does to a follower that receives InstallSnapshot)
+	usr1 := make(chan os.Signal, 4)
+	signal.Notify(usr1, syscall.SIGUSR1)
+	for range usr1 {
+		if err := n.raft.Snapshot().Error(); err != nil {
+			fmt.Println("IN-PLACE snapshot:", err)
+			continue
+		}
+		snaps, err := n.fss.List()
+		if err != nil || len(snaps) == 0 {
+			continue
+		}
+		meta, rc, err := n.fss.Open(snaps[0].ID)
+		if err != nil {
+			continue
+		}
+		err = n.raft.Restore(meta, rc, 20*time.Second)
+		rc.Close()
+		fmt.Println("IN-PLACE restore:", err)
+	}
 }
 
 type c05Node struct {
@@ -280,6 +300,27 @@ func c05Round(rep *verifrep.R, seed int64, dir string) {
 			snaps++
 			faultLog = append(faultLog, "snapshot")
 			time.Sleep(time.Duration(rng.Intn(50)) * time.Millisecond)
+		}
+		if rng.Intn(3) == 0 {
+			// in-place restore under load; handlers that still use the replaced stores may take
+			// the process down (it is then restarted like after a kill)
+			nd.mu.Lock()
+			if nd.cmd != nil && nd.cmd.Process != nil {
+				nd.cmd.Process.Signal(syscall.SIGUSR1)
+			}
+			nd.mu.Unlock()
+			faultLog = append(faultLog, "restore-in-place")
+			time.Sleep(time.Duration(300+rng.Intn(500)) * time.Millisecond)
+			if !nd.waitReady(c, 2*time.Second) {
+				nd.kill()
+				if err := nd.start(); err != nil {
+					rep.Broken(err.Error())
+					cancel()
+					return
+				}
+				nd.waitReady(c, 30*time.Second)
+			}
+			continue
 		}
 		nd.kill()
 		kills++
